@@ -102,7 +102,7 @@ def main(what, tier):
         return st_determinism(props, 2000 if tier == "thorough" else 64)
     if what == "all":
         return st_import() or st_determinism(props, 64)
-    if what in ("sensitivity", "probes"):
+    if what in ("sensitivity", "probes", "benign"):
         from . import sensitivity
         return sensitivity.main(what, tier)
     print("unknown selftest", what)
